@@ -340,8 +340,6 @@ def classify(line, impl, cls):
     if rc: return sorted(rc)[0]
     if fm.mixed_eq_chain(case):
         return "floatlineq_mixed_chain"   # a mixed float equality chained to a second float equality (see fm.mixed_eq_chain)
-    if impl.startswith("err NoSolution") and fm.bounds_pinch_offgrid(case):
-        return "bounds_pinch_offgrid"   # constant bounds pinch a float variable to a non-empty interval without a grid point
     if impl.startswith("err NoSolution") and any(r.linear and r.rel == "eq" and any(case.is_float(v) for v in r.coeffs) for r in case.rows):
         return "float_eq_offgrid"    # equality rows over float variables whose solution set misses the step grid
     if impl.startswith("err NoSolution") and ORACLE_ROBUST.get(line)[0] == "infeasible":
